@@ -249,7 +249,7 @@ func (s *segment) index(idx *index, doc types.Map) error {
 
 		if i == len(idx.Keys)-1 {
 			if idx.Unique && next.value.Len() > 0 {
-				return errors.WithMessagef(ErrKeyDuplicate, "key: %v", val.Interface())
+				return errors.WithMessagef(ErrKeyDuplicate, "key: %v", types.InterfaceOf(val))
 			}
 			next.value.ReplaceOrInsert(&node{key: id})
 			continue
